@@ -529,7 +529,10 @@ func (e Engine) Run(t *simrt.Tape, c simrt.Case, x *simrt.Ctx) *simrt.Result {
 		nInputs = 30
 	}
 	for _, em := range ems {
-		seps := []string{" ", "\n", "  ", "\t", " \n", "\r\n", ""}
+		seps := []string{" ", "\n", "  ", "\t", " \n", "\r\n", "", " ", "\n", "\t",
+			// characters that are white space for Unicode but not in the documented discard set
+			// (space, tab, LF, CR): between tokens they are lexical errors unless a token matches them
+			"\f", "\v", "\u0085", "\u00a0", "\u2028", "\u3000", " \f ", "\u2003"}
 		for k := 0; k < nInputs; k++ {
 			var b bytes.Buffer
 			n := 1 + t.Draw(8)
